@@ -6,8 +6,9 @@ S_OID = 'H.state'
 CMDKEY = ('sstr', 'CMD')
 
 
-def live_alts(st, v):
-    """concrete alternatives of a (possibly nested) Choice that are compatible with the path decisions"""
+def live_alts(st, v, assume=None):
+    """concrete alternatives of a (possibly nested) Choice that are compatible with the path decisions
+    (and with the extra assumptions {key: allowed values})"""
     if not isinstance(v, Choice):
         return [v]
     out = []
@@ -18,8 +19,11 @@ def live_alts(st, v):
             if cur is not None and not (cur & allowed):
                 ok = False
                 break
+            if assume is not None and k in assume and not (assume[k] & allowed):
+                ok = False
+                break
         if ok:
-            out.extend(live_alts(st, x))
+            out.extend(live_alts(st, x, assume))
     return out
 
 
@@ -68,11 +72,11 @@ class Facts(object):
         return 'V' in self.pstatus(letter)
 
     # ---- state after the path
-    def final(self, oid, attr):
+    def final(self, oid, attr, assume=None):
         v = self.st.heap.get((oid, attr))
         if v is None:
             return []
-        return live_alts(self.st, v)
+        return live_alts(self.st, v, assume)
 
     def post_excluding(self):
         alts = self.final(S_OID, 'excluding')
